@@ -398,6 +398,8 @@ class Gen:
                 prods += ["forkjoin"]
             if self.has("tags"):
                 prods += ["tags"]
+            if self.has("noprov"):
+                prods += ["noprov"]
             if kind == "list":
                 if self.has("seq"):
                     prods += ["seq"]
@@ -465,6 +467,8 @@ class Gen:
             return ("catch", inner, en, rec.idx)
         if p == "forkjoin":
             return ("forkjoin", self.gen_expr(kind, env, owner, depth + 1))
+        if p == "noprov":
+            return ("noprov", self.gen_expr(kind, env, owner, depth + 1))
         if p == "tags":
             inner = self.gen_expr(kind, env, owner, depth + 1)
             which = ["tags", "job_tags", "execution_tags"][ch.choice(3, "tag-kind")]
@@ -731,7 +735,23 @@ def task_src(prog: Program, t: TaskDef) -> str:
     return "\n".join(lines) + "\n"
 
 
-def emit(prog: Program) -> str:
+class RawProgram:
+    """A program given directly as module source (main task must be called t0)."""
+
+    def __init__(self, source: str, limits: Optional[dict] = None):
+        self.source = source
+        self.main_args: list = []
+        self.limits = limits or {}
+        self.namespace = "vp"
+        self.tasks: list = []
+
+    def key(self) -> str:
+        return hashlib.sha256(self.source.encode()).hexdigest()[:16]
+
+
+def emit(prog: Any) -> str:
+    if isinstance(prog, RawProgram):
+        return prog.source
     out = [HEADER.format(ns=prog.namespace)]
     # Later tasks first so that names exist when defaults are evaluated at def time.
     for t in reversed(prog.tasks):
